@@ -124,6 +124,9 @@ type Exec struct {
 	urlMeta     map[*Arr][]*StrV
 	jsVals      []*jsVal
 	jsGlobals   []jsReg
+	httpStates  map[*Cell]*httpState
+	bodyOwner   map[*Arr]*httpState
+	jsonVals    map[*Arr]*IfaceV
 }
 
 type Observation struct {
